@@ -69,7 +69,9 @@ Inductive uleaf :=
 | ULIsTag      (* *ut.IsTag{msg, tag}: Is(target) holds for *ut.IsTag targets with the same tag *)
 | ULSafeDet    (* *ut.SafeDet{msg, details}: implements SafeDetails() *)
 | ULSafeMsg    (* *ut.SafeMsg{msg}: implements SafeMessage() *)
-| ULHint.      (* *ut.Hinter{msg, hint, detail}: implements ErrorHint / ErrorDetail *)
+| ULHint       (* *ut.Hinter{msg, hint, detail}: implements ErrorHint / ErrorDetail *)
+| ULDual.      (* *ut.WFull{msg, nil}: a wrapper type without a cause, i.e. a leaf of the type of UWFull
+                  (a type that is sometimes a leaf and sometimes a wrapper) *)
 
 Inductive uwrap :=
 | UWUnwrap     (* *ut.WUnwrap{msg, cause}: Error = msg + ": " + cause, Unwrap() only *)
@@ -78,8 +80,9 @@ Inductive uwrap :=
 | UWFull       (* *ut.WFull{msg, cause}: Error = msg alone (elides its cause), Unwrap() *)
 | UWEmpty      (* *ut.WEmpty{cause}: Error = cause text, Unwrap() *)
 | UWSafeDet    (* *ut.WSafeDet{msg, details, cause}: prefix style + SafeDetails() *)
-| UWAs.        (* *ut.WAs{msg, cause}: prefix style, Unwrap(), and an As(interface{}) bool method
+| UWAs         (* *ut.WAs{msg, cause}: prefix style, Unwrap(), and an As(interface{}) bool method
                   that fills a *ut.Val target with ut.Val{Msg: msg, Tag: 503} *)
+| UWNoCmp.     (* ut.WNoCmp{msg, cause, []int}: prefix style, Unwrap(); a value type that is not comparable *)
 
 Inductive leafk :=
 | LErrString (msg : str)                 (* *errors.errorString (stdlib errors.New and sentinels) *)
@@ -167,14 +170,14 @@ Definition uleaf_ty (u : uleaf) : str :=
   match u with
   | ULPlain => lit "*ut.Plain" | ULVal => lit "ut.Val" | ULNoCmp => lit "ut.NoCmp"
   | ULIsTag => lit "*ut.IsTag" | ULSafeDet => lit "*ut.SafeDet" | ULSafeMsg => lit "*ut.SafeMsg"
-  | ULHint => lit "*ut.Hinter"
+  | ULHint => lit "*ut.Hinter" | ULDual => lit "*ut.WFull"
   end.
 
 Definition uwrap_ty (u : uwrap) : str :=
   match u with
   | UWUnwrap => lit "*ut.WUnwrap" | UWCause => lit "*ut.WCause" | UWBoth => lit "*ut.WBoth"
   | UWFull => lit "*ut.WFull" | UWEmpty => lit "*ut.WEmpty" | UWSafeDet => lit "*ut.WSafeDet"
-  | UWAs => lit "*ut.WAs"
+  | UWAs => lit "*ut.WAs" | UWNoCmp => lit "ut.WNoCmp"
   end.
 
 Definition ut_pkg : str := lit "verifharness/ut".
